@@ -202,6 +202,9 @@ def run(rep, tier, replay=None):
     by_key = slice_rule(rep, prog, oks)
     scaling_rule(rep, prog, by_key)
     endian_rule(rep, prog, run_)
+    from .common import enum_tables_rule
+    enum_tables_rule(rep, prog, "R6", ["adsb_deku::SurveillanceStatus", "adsb_deku::CPRFormat", "adsb_deku::adsb::ADSBVersion"],
+                     "payload enumerations (surveillance status, CPR format, ADS-B version): each variant is selected by exactly the codes the standard assigns to that meaning")
     rep.assume("reference slices of DO-260B / ICAO 9871 as transcribed in analysis/ref/layout.py (fields pinned in DESIGN.md section 3)")
     rep.assume("f32 representation error of QNH/heading is not decided (scalings are compared as exact rationals of the extracted formula)")
     return rep.finish(
